@@ -1,7 +1,8 @@
 // In-process driving of the REAL tss processes (keygen / signing / resharing, ECDSA and FROST).
 // The processes are started exactly the way tss.Coordinator starts them: the coordinator's process
 // computes the start parameters (StartParams) and runs with coordinator=true, every other process
-// runs with coordinator=false and the same parameters; all share one result channel.
+// runs with coordinator=false and the same parameters.  Key generation and resharing: runProcs below;
+// signing sessions (result channels, readers, retried attempts): session.go.
 package main
 
 import (
@@ -24,7 +25,6 @@ import (
 	fkeygen "github.com/ChainSafe/sygma-relayer/tss/frost/keygen"
 	fresharing "github.com/ChainSafe/sygma-relayer/tss/frost/resharing"
 	fsigning "github.com/ChainSafe/sygma-relayer/tss/frost/signing"
-	tsscommon "github.com/binance-chain/tss-lib/common"
 	"github.com/libp2p/go-libp2p/core/crypto"
 	"github.com/libp2p/go-libp2p/core/peer"
 	"github.com/rs/zerolog"
@@ -234,18 +234,38 @@ func (w *world) ecdsaKeygen(sid string, members []peer.ID, threshold int) runRes
 	return runProcs(procs, 0, members, 120*time.Second)
 }
 
-// ecdsaSign: `holders` = the committee (their peerstores), `subset` = the signers, coordinator = subset[coord].
-func (w *world) ecdsaSign(sid string, holders, subset []peer.ID, coord int, digest *big.Int) (runResult, error) {
-	procs := make([]tss.TssProcess, len(subset))
-	for i, p := range subset {
-		h := c08fakes.NewHost(p, holders)
-		s, err := esigning.NewSigning(new(big.Int).Set(digest), sid, sid, h, w.comm[p], c08fakes.NewECDSAStore(w.ecdsaPath(p)))
-		if err != nil {
-			return runResult{}, err
+// signMembers builds the relayers of a signing session: one member per peer in `peers`, each with one
+// signing process per digest (the BTC executor signs every transaction input in its own process, all
+// sharing the relayer's result channel), its own host (peerstore = the committee) and a
+// fault-injecting view of its communication endpoint.
+func (w *world) signMembers(proto, sid string, holders, peers []peer.ID, digests [][]byte, tweakHex string) ([]*member, []string, error) {
+	sids := make([]string, len(digests))
+	for k := range digests {
+		sids[k] = sid
+		if k > 0 {
+			sids[k] = fmt.Sprintf("%s-in%d", sid, k)
 		}
-		procs[i] = s
 	}
-	return runProcs(procs, coord, subset, 120*time.Second), nil
+	members := make([]*member, len(peers))
+	for i, p := range peers {
+		m := &member{peer: p, fc: &faultComm{Comm: w.comm[p], armed: map[string]bool{}}}
+		h := c08fakes.NewHost(p, holders)
+		for k, dg := range digests {
+			var proc tss.TssProcess
+			var err error
+			if proto == "ecdsa" {
+				proc, err = esigning.NewSigning(new(big.Int).SetBytes(dg), sids[k], sids[k], h, m.fc, c08fakes.NewECDSAStore(w.ecdsaPath(p)))
+			} else {
+				proc, err = fsigning.NewSigning(k, dg, tweakHex, sids[k], sids[k], h, m.fc, c08fakes.NewFrostStore(w.frostPath(p)))
+			}
+			if err != nil {
+				return nil, nil, err
+			}
+			m.procs = append(m.procs, proc)
+		}
+		members[i] = m
+	}
+	return members, sids, nil
 }
 
 // ecdsaReshare: newMembers = the new committee (every host's peerstore); holders among them take
@@ -266,13 +286,6 @@ func (w *world) ecdsaReshare(sid string, newMembers []peer.ID, newThreshold int)
 	return runProcs(procs, coord, newMembers, 180*time.Second), nil
 }
 
-func sigOf(r released) *tsscommon.SignatureData {
-	if s, ok := r.v.(*tsscommon.SignatureData); ok {
-		return s
-	}
-	return nil
-}
-
 // ---- FROST ---------------------------------------------------------------------------------------
 
 func (w *world) frostKeygen(sid string, members []peer.ID, threshold int) runResult {
@@ -282,19 +295,6 @@ func (w *world) frostKeygen(sid string, members []peer.ID, threshold int) runRes
 		procs[i] = fkeygen.NewKeygen(sid, threshold, h, w.comm[p], c08fakes.NewFrostStore(w.frostPath(p)))
 	}
 	return runProcs(procs, 0, members, 120*time.Second)
-}
-
-func (w *world) frostSign(sid string, holders, subset []peer.ID, coord int, msg []byte, tweakHex string) (runResult, error) {
-	procs := make([]tss.TssProcess, len(subset))
-	for i, p := range subset {
-		h := c08fakes.NewHost(p, holders)
-		s, err := fsigning.NewSigning(i, msg, tweakHex, sid, sid, h, w.comm[p], c08fakes.NewFrostStore(w.frostPath(p)))
-		if err != nil {
-			return runResult{}, err
-		}
-		procs[i] = s
-	}
-	return runProcs(procs, coord, subset, 120*time.Second), nil
 }
 
 func (w *world) frostReshare(sid string, newMembers []peer.ID, newThreshold int) (runResult, error) {
@@ -311,13 +311,6 @@ func (w *world) frostReshare(sid string, newMembers []peer.ID, newThreshold int)
 		return runResult{}, fmt.Errorf("no key holder in the new committee")
 	}
 	return runProcs(procs, coord, newMembers, 120*time.Second), nil
-}
-
-func frostSigOf(r released) []byte {
-	if s, ok := r.v.(fsigning.Signature); ok {
-		return []byte(s.Signature)
-	}
-	return nil
 }
 
 func hexs(b []byte) string { return hex.EncodeToString(b) }
